@@ -7,7 +7,7 @@ import numpy as np
 
 from .. import models, pipeline, quant
 
-SHIFTS = [(0.0, 0.0), (0.3, -0.2), (-1.0, 0.5)]      # translation vectors in units of the field scale
+SHIFTS = [(0.0, 0.0, 0.0), (0.3, -0.2, 0.15), (-1.0, 0.5, -0.4)]      # translation vectors in units of the field scale (first nf components)
 
 
 def run_one(args):
@@ -23,10 +23,11 @@ def run_one(args):
         kw = {}
         if "g" in rep:
             g = rep["g"]
-            base = models.pipeline_model("two")
+            base = models.pipeline_model(rep["model"])
             fs = base.field_scale()
-            kw = dict(perm=tuple(p - 1 for p in g["perm"]), sign=tuple(g["sign"]), shift=tuple(SHIFTS[g["shift"]][j] * fs for j in range(2)))
-            ev["shiftTicks"] = [quant.ticks(SHIFTS[g["shift"]][j], 1e-5) for j in range(2)]
+            nf = base.nf
+            kw = dict(perm=tuple(p - 1 for p in g["perm"]), sign=tuple(g["sign"]), shift=tuple(SHIFTS[g["shift"]][j] * fs for j in range(nf)))
+            ev["shiftTicks"] = [quant.ticks(SHIFTS[g["shift"]][j], 1e-5) for j in range(nf)]
         m = models.pipeline_model(rep["model"], u=u, **kw)
         tight = rep.get("setting") == "tight"
         errTol = 1e-4 if tight else 1e-3
